@@ -1,9 +1,87 @@
-//! STUB component for tpm2 -- to be written
+//! component 23: Tpm2.  Case vocabulary documented in coq/theories/Spec/Tpm2S.v.
 use crate::sx::*;
+use crate::tcommon::*;
 use crate::Emit;
+use acpi_tables::tpm2::*;
 
-pub fn run(_case: &Sx, _out: &mut Vec<Ev>) {
-    panic!("harness: component tpm2 not implemented")
+fn class(n: u64) -> PlatformClass {
+    match n {
+        0 => PlatformClass::Client,
+        1 => PlatformClass::Server,
+        _ => panic!("harness: bad PlatformClass"),
+    }
 }
 
-pub fn gen(_tier: &str, _rng: &mut Rng, _emit: &mut Emit) {}
+fn start_method(n: u64) -> StartMethod {
+    match n {
+        1 => StartMethod::LegacyUse,
+        2 => StartMethod::AcpiStart,
+        6 => StartMethod::Mmio,
+        7 => StartMethod::Crb,
+        8 => StartMethod::CrbAndAcpiStart,
+        11 => StartMethod::CrbAndSmcHvc,
+        12 => StartMethod::I2cFifo,
+        _ => panic!("harness: bad StartMethod"),
+    }
+}
+
+pub fn run(case: &Sx, out: &mut Vec<Ev>) {
+    let c = case.list();
+    let ctor = c[0].list();
+    let (oem, tbl, rev) = hdr_args(ctor);
+    let mut t = Tpm2::new(oem, tbl, rev, class(ctor[3].num()), ctor[4].num(), start_method(ctor[5].num()));
+    for op in &c[1..] {
+        if let Sx::A(_) = op {
+            out.push(image(&t));
+            continue;
+        }
+        let o = op.list();
+        match o[0].num() {
+            1 => t.set_log_area(o[1].num() as u32, o[2].num()),
+            _ => panic!("harness: bad tpm2 op"),
+        }
+        out.push(Ev::Num(0));
+    }
+}
+
+const METHODS: [u64; 7] = [1, 2, 6, 7, 8, 11, 12];
+
+fn rand_log(rng: &mut Rng) -> Sx {
+    l(vec![a(1), a(rng.val(32)), a(rng.val(64))])
+}
+
+pub fn gen(tier: &str, rng: &mut Rng, emit: &mut Emit) {
+    // every PlatformClass x StartMethod with zero, one and two calls of set_log_area (the second must be refused)
+    let reps = if tier == "thorough" { 40 } else { 4 };
+    for _ in 0..reps {
+        for cls in 0..2u64 {
+            for sm in METHODS {
+                for calls in 0..3usize {
+                    let mut c = rand_hdr(rng);
+                    c.push(a(cls));
+                    c.push(a(rng.val(64)));
+                    c.push(a(sm));
+                    let ops = (0..calls).map(|_| rand_log(rng)).collect();
+                    emit.case(23, history(rng, l(c), ops));
+                }
+            }
+        }
+    }
+    // boundary values of the log area
+    for (len, base) in [(0u64, 0u64), (u32::MAX as u64, u64::MAX), (0x8070_6050, 0x4030_2010_f0e0_d0c0), (1, 0), (0, 1)] {
+        let mut c = rand_hdr(rng);
+        c.push(a(rng.below(2)));
+        c.push(a(rng.val(64)));
+        c.push(a(*rng.pick(&METHODS)));
+        emit.case(23, history(rng, l(c), vec![l(vec![a(1), a(len), a(base)])]));
+    }
+    // three calls: the refusal ends the history
+    {
+        let mut c = rand_hdr(rng);
+        c.push(a(1));
+        c.push(a(rng.val(64)));
+        c.push(a(7));
+        let ops = (0..3).map(|_| rand_log(rng)).collect();
+        emit.case(23, history(rng, l(c), ops));
+    }
+}
